@@ -317,6 +317,26 @@ def run_check(pid, tier, seed, replay=None):
         if diff:
             violations.append({"kind": "failing-input", "why": diff, "case": c.to_json(), "impl": i, "model": m})
 
+    # property-specific multi-process checks (e.g. transcripts under several hash seeds)
+    extra = getattr(mod, "extra_checks", None)
+    if extra is not None:
+        if replay and rj.get("extra"):
+            ex = extra(rng, tier, sys.modules[__name__], replay=rj)
+        elif not replay:
+            ex = extra(rng, tier, sys.modules[__name__], replay=None)
+        else:
+            ex = None
+        if ex:
+            violations += ex.get("violations", [])
+            for k, v in ex.get("streams", {}).items(): streams[k] = streams.get(k, 0) + v
+            for smp in ex.get("samples", []): samples.setdefault("extra:%d" % len(samples), smp)
+            nontrivial |= set(ex.get("nontrivial", []))
+            extra_evals = ex.get("evaluations", 0)
+        else:
+            extra_evals = 0
+    else:
+        extra_evals = 0
+
     # kernel re-evaluation of a sample of the model answers
     kernel = {"checked": 0, "ok": True}
     if driver_ok and not replay:
@@ -332,7 +352,7 @@ def run_check(pid, tier, seed, replay=None):
 
     for f in findings:
         if known_hits[f["id"]] > 0:
-            print(f"KNOWN-FINDING: property={pid} {f['id']}: {f['what']} (witness {json.dumps(f['witness']['args'])}; {known_hits[f['id']]} instance(s) this run)")
+            print(f"KNOWN-FINDING: property={pid} {f['id']}: {f['what']} (witness {json.dumps(f['witness']['args'])[:160]}; {known_hits[f['id']]} instance(s) this run)")
         else:
             notes.append(f"known finding {f['id']} did not reproduce on this run (its witness no longer fails)")
 
@@ -351,7 +371,7 @@ def run_check(pid, tier, seed, replay=None):
     violations.sort(key=lambda v: 0 if v["kind"] == "failing-input" else 1)
     for n, v in enumerate(violations[:8]):
         path = os.path.join(VERIF, "replay", f"{pid}-{n}.json")
-        rj = dict(v, property=pid, seed=seed, tier=tier, cases=[v["case"]] if "case" in v else [],
+        rj = dict(v, property=pid, seed=seed, tier=tier, cases=([v["case"]] if "case" in v and not v.get("extra") else []),
                   replay_cmd=f"./check {pid} --replay {path}")
         json.dump(rj, open(path, "w"), indent=1, ensure_ascii=True)
         print(f"VIOLATION property={pid} replay={path}" + (" no-failing-input-found" if v.get("no_failing_input") else ""))
@@ -366,7 +386,7 @@ def run_check(pid, tier, seed, replay=None):
             "trusted_base": TRUSTED_BASE + list(getattr(mod, "TRUSTED_EXTRA", [])),
             "theorems": proof["theorems"], "axioms_reported": proof["axioms"], "forbidden_constructs": bad,
             "build_ok": b["ok"], "build_wall_s": round(b.get("wall", 0), 1),
-            "evaluations": len(cases), "distinct_nontrivial": len(nontrivial),
+            "evaluations": len(cases) + extra_evals, "distinct_nontrivial": len(nontrivial),
             "rule": getattr(mod, "RULE", "generated cases; non-trivial = the implementation returned a value rather than its rejection"),
             "streams": streams, "traces_validated_against_impl": len(model_idx),
             "kernel_reevaluated": kernel, "known_finding_instances": known_hits,
